@@ -2,8 +2,8 @@
 package c11
 
 import (
-	"io"
 	"fmt"
+	"io"
 	"net/http"
 	"strings"
 	"testing"
@@ -49,6 +49,10 @@ func genConn(t *rapid.T) ConnCase {
 			// the connection goes idle after its last stream ended normally or abnormally
 			pl.LastStream = rapid.SampledFrom([]string{"", "", "client-rst", "early-response", "malformed", "self-dependent"}).Draw(t, "last")
 			pl.H2Extra = rapid.SliceOfNDistinct(rapid.SampledFrom([]string{"wu-conn", "wu-stream", "priority", "ping", "settings", "priority-flood"}), 0, 3, rapid.ID[string]).Draw(t, "extra")
+			if rapid.IntRange(0, 2).Draw(t, "chatter") == 0 {
+				// no further request, but a frame now and then (keep-alive pings, window bookkeeping): still idle
+				pl.IdleChatterMs = rapid.SampledFrom([]int64{10, 40, 400, 30000}).Draw(t, "chatterMs")
+			}
 		}
 		return ConnCase{"idle", pl}
 	case 5:
@@ -201,6 +205,9 @@ func exec(t *testing.T, s Script) *vstat.Violation {
 				if o.c.Plan.LastStream != "" && proto == "h2" {
 					o.classes = append(o.classes, "idle-after:"+o.c.Plan.LastStream)
 				}
+				if o.c.Plan.IdleChatterMs > 0 && proto == "h2" && time.Duration(o.c.Plan.IdleChatterMs)*time.Millisecond < idle {
+					o.classes = append(o.classes, "idle:h2-client-keeps-sending-control-frames")
+				}
 				from := time.Now()
 				// allow the HTTP/2 GOAWAY grace period (1 s) on top of the idle timeout
 				time.Sleep(idle + 1500*time.Millisecond)
@@ -304,7 +311,7 @@ func dedup(in []string) []string {
 func TestRelease(t *testing.T) {
 	rig.Certs()
 	col.Mandatory("vanish:mid-upload-h2", "abort:during-handshake", "abort:after-handshake:h2", "abort:after-handshake:http/1.1", "stall:before-handshake-complete", "handshake-timeout-enforced", "stall:after-handshake",
-		"idle:h2", "idle:http/1.1", "idle:no-alpn", "parallel:true", "hs-timeout:0ms", "idle-after:client-rst", "idle-after:early-response", "idle-after:malformed")
+		"idle:h2", "idle:http/1.1", "idle:no-alpn", "parallel:true", "hs-timeout:0ms", "idle-after:client-rst", "idle-after:early-response", "idle-after:malformed", "idle:h2-client-keeps-sending-control-frames")
 	vstat.Run(t, vstat.Spec[Script]{Col: col, Quick: 1200, Thorough: 40000, Gen: gen, Exec: func(s Script) *vstat.Violation { return exec(t, s) }})
 }
 
